@@ -229,7 +229,7 @@ pub fn swarm_run(seed: u64, ri: u64, thorough: bool, st: &mut Stats, errs: &mut 
         if let Some(v) = rr.violation {
             // a builder-contract violation (the reference run injects no fault)
             st.account_run((MODE_SWARM, ri, 0), &ref_spec, &rr.insts, rr.fp);
-            st.violations.push(FoundViolation { id: (MODE_SWARM, ri, 0), spec: ref_spec, budgets: vec![rb], violation: v });
+            st.found(FoundViolation { id: (MODE_SWARM, ri, 0), spec: ref_spec, budgets: vec![rb], violation: v });
             return;
         }
         st.account_run((MODE_SWARM, ri, 100 + instances.len() as u64), &ref_spec, &rr.insts, rr.fp);
@@ -277,7 +277,7 @@ pub fn swarm_run(seed: u64, ri: u64, thorough: bool, st: &mut Stats, errs: &mut 
         st.probe("fault_fired_in_sequential_multi_instance_run");
     }
     if let Some(v) = res.violation {
-        st.violations.push(FoundViolation { id: (MODE_SWARM, ri, 1), spec, budgets, violation: v });
+        st.found(FoundViolation { id: (MODE_SWARM, ri, 1), spec, budgets, violation: v });
     } else if ri % 4001 == 17 {
         let rec = execute(&spec, &budgets, &ExecOpts { record: true, keep_tail: 16, rec_polls: false, check_isolation: false, rec_items: false });
         st.samples.push(((MODE_SWARM, ri, 1), crate::evidence::sample_json(&spec, &budgets, &rec)));
